@@ -64,7 +64,10 @@ func handleLeader(context *layoutContext, line *bo.LineBox, containingBlock cont
 		line.Width = cbWidth
 
 		// Add text boxes into the leader box
-		numberOfLeaders := int(line.Width.V()) / int(textBox.Width.V())
+		numberOfLeaders := 0
+		if w := textBox.Width.V(); w > 0 {
+			numberOfLeaders = int(line.Width.V() / w)
+		}
 		positionX := line.PositionX + line.Width.V()
 		var children []Box
 		for i := 0; i < numberOfLeaders; i++ {
